@@ -96,7 +96,8 @@ def make_jobs(S, names, pub, tier, rng, nrandom, full_names):
 
 
 def run_shard(exe, lines, tracefile):
-    rc, out = vlib.sh([exe, "--sch-trace", tracefile], input="\n".join(lines) + "\n", timeout=900, env=vlib.harness_env("plain"))
+    rc, out = vlib.sh([exe, "--sch-trace", tracefile, "--tr-trace", tracefile + ".tr"], input="\n".join(lines) + "\n", timeout=900,
+                      env=vlib.harness_env("plain"))
     res = []
     for l in out.splitlines():
         if l.startswith("{"):
@@ -138,6 +139,12 @@ def run(tier, replay):
     ck.tlc_stats(r, "MCScheme(all %d scheme graphs)" % len(S.data))
     if r.violated:
         ck.violation("model:" + r.violated, "Scheme.tla: %s violated on the extracted graphs" % r.violated, {"trace": r.trace[-3:]})
+    r = vlib.tlc("MCTransition", "MCTransition.cfg", workers=4, timeout=300)
+    if r.error:
+        raise vlib.InfraError(r.error)
+    ck.tlc_stats(r, "MCTransition(nucltrans*, pair, PbAtShell)")
+    if r.violated:
+        ck.violation("model:Transition:" + r.violated, "Transition.tla: %s violated" % r.violated, {"trace": r.trace[-3:]})
     # ---- 2. plans
     if thorough:
         names, full, nrandom = allnames, set(allnames), 5000
@@ -214,6 +221,32 @@ def run(tier, replay):
                 key = "%s:tracespec:%s" % (nm, bad.get("p", bad.get("e", "?")))
                 ck.violation(key, "scheme-level trace rejected by TraceScheme.tla at line %d: %s (execution: %s)" % (
                     ln, ls[ln - 1] if ln - 1 < len(ls) else "?", " ".join(ctx)[:600]), {"trace": ctx, "file": tf})
+    # ---- 5. what every transition primitive / internal pair / atomic cascade emitted, against Transition.tla
+    import re as _re
+    with cf.ThreadPoolExecutor(max_workers=4) as ex:
+        def vt(i):
+            tf = os.path.join(wd, "sch%d.ndjson.tr" % i)
+            rr = vlib.tlc("TraceTransition", "TraceTransition.cfg", workers=1, env={"TRACE": tf}, timeout=900, xmx="4g")
+            m = _re.search(r'furthest-line", (\d+), "of", (\d+)', rr.out)
+            return tf, rr, (int(m.group(1)), int(m.group(2))) if m else None
+        for tf, rr, fl in ex.map(vt, range(nshards)):
+            if fl is None:
+                raise vlib.InfraError("TraceTransition: " + (rr.error or rr.out[-600:]))
+            ck.tlc_stats(rr, None)
+            lines_total += fl[1]
+            if fl[0] <= fl[1]:
+                ls = open(tf).read().splitlines()
+                ln = max(1, fl[0] - 1)
+                i0 = min(ln, len(ls)) - 1
+                while i0 > 0 and '"Begin"' not in ls[i0]:
+                    i0 -= 1
+                j0 = i0 + 1
+                while j0 < len(ls) and '"Begin"' not in ls[j0]:
+                    j0 += 1
+                h = json.loads(ls[i0]) if ls else {}
+                ck.violation("transition:%s:emission" % h.get("p", "?"),
+                             "what a %s call emitted is not a behaviour of Transition.tla (energy conservation / outcome): %s" % (
+                                 h.get("p"), " ".join(ls[i0:j0])[:500]), {"trace": ls[i0:j0]})
     ck.set("evaluations", len(results))
     ck.set("traces_validated_against_impl", len(results))
     ck.set("trace_lines_validated_by_tlc", lines_total)
